@@ -26,7 +26,7 @@ T = {
          "Rocq proofs (convexity of the EMA recursion, order theorems, triangle inequality) + bit-exact correspondence + range predicate on implementation outputs"),
  "C08": ("Theorems (exact arithmetic): on a flat window MAD = 0, SD = 0, Bollinger bands collapse, FastStochastic returns the literal 50, TrueRange 0, RateOfChange 0, CCI 0. Refuted for EfficiencyRatio, RSI, MFI, CCI by vm_compute witnesses on the float model (C08_K3..K6) and, for every flat / zero-flow window in exact arithmetic, by C08_K3_er_flat_exact and C08_K5_mfi_zero_flow_exact (the result is 0/0 = NaN); replayed on the implementation and listed as known findings; every other degenerate-window failure is a violation.",
          "Rocq proofs + vm_compute refutation witnesses + flat-stretch enumeration on the implementation with known-finding classification"),
- "C09": ("Theorems: MACD/PPO histogram = line - signal for every number type (no slack); Minimum <= Maximum for any order; over exact reals SD, MAD >= 0 and never NaN, BB lower <= average <= upper for multiplier >= 0, SMA/WMA within the range of their window, EMA within the range of its history, TrueRange and ATR >= 0 for low <= high, KeltnerChannel lower <= average <= upper, ChandelierExit long <= window maximum and short >= window minimum. On binary64 StandardDeviation and MeanAbsoluteDeviation are proved finite and >= 0 (never NaN) for inputs of magnitude up to 2^400 (C09_sd_binary64_never_nan, C09_mad_binary64_never_nan, Flocq) and refuted at 1.7e308 (K8); BollingerBands on binary64 are proved finite with lower <= average <= upper exactly, no slack (C09_bb_binary64_ordered: multiplier in [0, 2^400], rounding is monotone and fixes the average). Float slack of the other relations: predicate on the implementation (partial).",
+ "C09": ("Theorems: MACD/PPO histogram = line - signal for every number type (no slack); Minimum <= Maximum for any order; over exact reals SD, MAD >= 0 and never NaN, BB lower <= average <= upper for multiplier >= 0, SMA/WMA within the range of their window, EMA within the range of its history, TrueRange and ATR >= 0 for low <= high, KeltnerChannel lower <= average <= upper, ChandelierExit long <= window maximum and short >= window minimum. On binary64 StandardDeviation and MeanAbsoluteDeviation are proved finite and >= 0 (never NaN) for inputs of magnitude up to 2^400 (C09_sd_binary64_never_nan, C09_mad_binary64_never_nan, Flocq) and refuted at 1.7e308 (K8); BollingerBands on binary64 are proved finite with lower <= average <= upper exactly, no slack (C09_bb_binary64_ordered: multiplier in [0, 2^400], rounding is monotone and fixes the average); binary64 AverageTrueRange (scalars) is finite and >= 0 and KeltnerChannel bands are finite and ordered exactly, for streams of any length (C09_atr_binary64_nonneg, C09_kc_binary64_ordered). Float slack of the other relations: predicate on the implementation (partial).",
          "Rocq proofs (convexity, sums of squares) + bit-exact correspondence + ordering predicates on implementation outputs"),
  "C14": ("Theorems over exact reals, for every stream: SMA, WMA, SD, MAD, EMA, MACD, TrueRange, ATR, KeltnerChannel and Bollinger levels scale with c; SMA, EMA, WMA, KC and BB levels shift by d while SD, MAD, MACD, TrueRange, ATR are unchanged; Minimum and Maximum commute with every strictly increasing map; FastStochastic is unchanged by x -> c*x+d (c>0); SlowStochastic is unchanged by the same maps; PPO, ROC, EfficiencyRatio, CCI, MFI, OBV are unchanged by c>0 including their division-by-zero cases; for every number type whose negation reverses the comparison Maximum(x) = -Minimum(-x) exactly. ChandelierExit and the float tolerances: pairwise comparison of implementation runs (partial).",
          "Rocq proofs (homogeneity of the exact specifications; uniqueness of extremes under monotone maps; simulation for Max/Min) + bit-exact correspondence + scaled/shifted run comparison on the implementation"),
